@@ -7,7 +7,7 @@ wt = sys.argv[3] if len(sys.argv) > 3 else f'/tmp/wt-{pid}'
 p = [json.loads(l) for l in open('/verif/properties.jsonl') if json.loads(l)['id'] == pid][0]
 print(f"""You are helping to test a verification harness by writing realistic property-breaking code changes ("seeded bugs") for the Python library esoft-tech/py-bc-excel2pycl (an Excel-formula-to-Python transpiler: it reads an .xlsx with openpyxl, parses formulas with a regex lexer and token-set parser, emits a Python class `ExcelInPython` with one method per cell plus a runtime library of Excel functions; `Parser` translates, `Executor` evaluates).
 
-Your private scratch copy of the repository is the git worktree {wt} (detached HEAD). Work ONLY inside {wt} (and /tmp/agent-{pid} for scratch files). Do NOT read or touch /verif or /repo. Run Python as `/venv/bin/python` with the worktree as the current directory (`cd {wt} && /venv/bin/python ...`) so that `import excel2pycl` resolves to the worktree copy (check `excel2pycl.__file__`). There is no network.
+Your private scratch copy of the repository is the git worktree {wt} (detached HEAD). Work ONLY inside {wt} (and /tmp/agent-{pid} for scratch files). Do NOT read or touch /verif or /repo. Run Python as `/venv/bin/python` with the worktree as the current directory (`cd {wt} && /venv/bin/python ...`) so that `import excel2pycl` resolves to the worktree copy (check `excel2pycl.__file__`). There is no network. Always wrap throw-away runs in `timeout 300`. Beware: a script run as `python /some/dir/script.py` gets /some/dir first on sys.path, not the current directory - make every script (and every demo.py) start with `import os, sys; sys.path.insert(0, os.getcwd())` so that `excel2pycl` is imported from the current working directory (never hard-code the worktree path in a demo).
 
 The property the changes must break:
 
